@@ -166,7 +166,7 @@ Section Needed.
 
   Theorem allowed9_depends_on_needed7 e st st' :
     agree_on (needed7 e) st st' ->
-    provider_ok st = provider_ok st' -> one_room f st = one_room f st' ->
+    provider_ok st = provider_ok st' -> valid9 f st = valid9 f st' ->
     allowed9 sig_of f e st = allowed9 sig_of f e st'.
   Proof.
     intros AG PO OR. unfold allowed9.
